@@ -672,6 +672,10 @@ class LiteralUnmarshaller(AbstractUnmarshaller[LiteralT], tp.Generic[LiteralT]):
     def __call__(self, val: tp.Any) -> LiteralT:
         if inspection.isliteralmember(val, self.values):
             return val
+        # The same text must mean the same in every carrier (str, bytes, ...).
+        text = serdes.decode(val)
+        if inspection.isliteralmember(text, self.values):
+            return text
         decoded = serdes.load(val)
         if inspection.isliteralmember(decoded, self.values):
             return decoded  # type: ignore[return-value]
